@@ -321,6 +321,13 @@ impl UnsettledMessage {
         }
     }
 
+    /// Fail whoever is waiting for the outcome of this delivery while keeping the delivery itself
+    /// (payload and state) in the unsettled map for a later resumption of the link
+    pub fn abandon_waiter(&mut self) {
+        let (sender, _) = oneshot::channel();
+        self.sender = sender;
+    }
+
     pub fn settle(self) -> Result<(), Option<DeliveryState>> {
         self.sender.send(self.state)
     }
